@@ -352,6 +352,29 @@ var progress atomic.Int64
 // waiting (a loaded machine is not a finding); after 3 minutes without a single returned call
 // while goroutines are runnable - or 40 minutes in all - it gives up (inconclusive, never a
 // violation).
+// confirmedDeadlock: a single dump in which nothing can run is not enough - library goroutines
+// (the s2 reader and writer run pipelines of their own) can make a healthy engine look parked
+// for an instant. The verdict needs three dumps over ten seconds that all say so, with not a
+// single call of the engine returning in between.
+func confirmedDeadlock() (string, bool) {
+	dump := goroutineDump()
+	if !deadlocked(dump) {
+		return "", false
+	}
+	p0 := progress.Load()
+	for i := 0; i < 2; i++ {
+		time.Sleep(5 * time.Second)
+		dump = goroutineDump()
+		if !deadlocked(dump) || progress.Load() != p0 {
+			return "", false
+		}
+	}
+	if f := os.Getenv("VERIF_FULL_DUMP"); f != "" {
+		_ = os.WriteFile(f, []byte(dump), 0o644)
+	}
+	return dump, true
+}
+
 func await(done <-chan struct{}, what string) *problem {
 	last, idle := progress.Load(), 0
 	for i := 0; i < 120 && idle < 9; i++ {
@@ -359,10 +382,7 @@ func await(done <-chan struct{}, what string) *problem {
 		case <-done:
 			return nil
 		case <-time.After(20 * time.Second):
-			if dump := goroutineDump(); deadlocked(dump) {
-				if f := os.Getenv("VERIF_FULL_DUMP"); f != "" {
-					_ = os.WriteFile(f, []byte(dump), 0o644)
-				}
+			if dump, ok := confirmedDeadlock(); ok {
 				return &problem{"deadlock", what + " and nothing can run:\n" + trimDump(dump)}
 			}
 			if now := progress.Load(); now != last {
